@@ -9,9 +9,20 @@ use typstyle_core::Typstyle;
 use super::sched::{AbandonSignal, Decider, Sched, SchedStats};
 use super::{Call, Op, Policy, Res, Scenario};
 
+thread_local! {
+    /// result of the nested call made by the inspector of the last `exec_call` on this thread
+    static LAST_INNER: std::cell::RefCell<Option<Res>> = const { std::cell::RefCell::new(None) };
+}
+
+pub fn take_inner() -> Option<Res> {
+    LAST_INNER.with(|c| c.borrow_mut().take())
+}
+
 pub struct RunOutcome {
     /// results per thread, per call
     pub results: Vec<Vec<Res>>,
+    /// results of the calls nested inside inspector callbacks (None where there was none)
+    pub inner_results: Vec<Vec<Option<Res>>>,
     /// hook points each call passed (None if it did not complete)
     pub steps: Vec<Vec<Option<u64>>>,
     /// for calls with `feed_prev` that actually were fed: the text they ran on
@@ -24,6 +35,11 @@ pub struct RunOutcome {
 
 /// performs one call; this is the only place engine B calls into the library
 pub fn exec_call(call: &Call, text: &str, shared_source: Option<&Source>, shared_styler: Option<&Typstyle>) -> Res {
+    exec_call_nested(call, text, shared_source, shared_styler, None)
+}
+
+pub fn exec_call_nested(call: &Call, text: &str, shared_source: Option<&Source>, shared_styler: Option<&Typstyle>, inner_text: Option<&str>) -> Res {
+    LAST_INNER.with(|c| *c.borrow_mut() = None);
     let config = call.cfg.to_config();
     // a fresh formatter, or a clone of the run's shared one for this configuration
     let make = |config: typstyle_core::Config| -> Typstyle {
@@ -64,6 +80,21 @@ pub fn exec_call(call: &Call, text: &str, shared_source: Option<&Source>, shared
             let mut digest = 0u64;
             match make(config).format_source_inspect(src, |doc| {
                 digest = crate::rng::fnv(doc.pretty(120).to_string().as_bytes());
+                if let (Some((_, icfg)), Some(itext)) = (&call.nest, inner_text) {
+                    // a call nested inside this one, on the same thread
+                    let r = catch_unwind(AssertUnwindSafe(|| Typstyle::new(icfg.to_config()).format_content(itext)));
+                    let inner = match r {
+                        Ok(Ok(s)) => Res::Ok(s),
+                        Ok(Err(_)) => Res::Err,
+                        Err(p) => {
+                            if p.is::<AbandonSignal>() {
+                                std::panic::resume_unwind(p); // the simulator abandons the whole request
+                            }
+                            Res::Panic
+                        }
+                    };
+                    LAST_INNER.with(|c| *c.borrow_mut() = Some(inner));
+                }
             }) {
                 Ok(s) => Res::OkInspect(s, digest),
                 Err(_) => Res::Err,
@@ -174,6 +205,7 @@ pub fn run_scenario(sc: &Scenario) -> RunOutcome {
                 }));
                 sched.wait_start(tid);
                 let mut results: Vec<Res> = Vec::new();
+                let mut inner_results: Vec<Option<Res>> = Vec::new();
                 let mut steps: Vec<Option<u64>> = Vec::new();
                 let mut fed_texts: Vec<Option<String>> = Vec::new();
                 for (ci, call) in script.iter().enumerate() {
@@ -195,9 +227,12 @@ pub fn run_scenario(sc: &Scenario) -> RunOutcome {
                     let src = if shared { Some(&sources[call.doc]) } else { None };
                     let styler = stylers.iter().find(|(c, _)| *c == call.cfg).map(|(_, s)| s);
                     sim_clock(true);
-                    let r = catch_unwind(AssertUnwindSafe(|| exec_call(call, text, src, styler)));
+                    let inner_text: Option<&str> = call.nest.as_ref().map(|(d, _)| docs[*d % docs.len()].as_str());
+                    let r = catch_unwind(AssertUnwindSafe(|| exec_call_nested(call, text, src, styler, inner_text)));
+                    let inner = take_inner();
                     sim_clock(false);
                     let after = typstyle_core::verif::steps();
+                    inner_results.push(if r.is_ok() { inner } else { None });
                     match r {
                         Ok(res) => {
                             results.push(res);
@@ -217,13 +252,14 @@ pub fn run_scenario(sc: &Scenario) -> RunOutcome {
                 }
                 sched.finish(tid);
                 typstyle_core::verif::uninstall();
-                (results, steps, fed_texts)
+                (results, steps, fed_texts, inner_results)
             })
             .expect("spawn");
         handles.push(h);
     }
     sched.start();
     let mut results = Vec::new();
+    let mut inner_all = Vec::new();
     let mut steps = Vec::new();
     let mut fed_texts = Vec::new();
     let mut hung = false;
@@ -242,18 +278,21 @@ pub fn run_scenario(sc: &Scenario) -> RunOutcome {
         if hung && !h.is_finished() {
             // cannot be joined; the process reports the hang and exits
             results.push(Vec::new());
+            inner_all.push(Vec::new());
             steps.push(Vec::new());
             fed_texts.push(Vec::new());
             continue;
         }
         match h.join() {
-            Ok((r, s, f)) => {
+            Ok((r, s, f, inn)) => {
                 results.push(r);
+                inner_all.push(inn);
                 steps.push(s);
                 fed_texts.push(f);
             }
             Err(_) => {
                 hung = true;
+                inner_all.push(Vec::new());
                 results.push(Vec::new());
                 steps.push(Vec::new());
                 fed_texts.push(Vec::new());
@@ -261,7 +300,7 @@ pub fn run_scenario(sc: &Scenario) -> RunOutcome {
         }
     }
     let (decisions, stats) = sched.take_results();
-    RunOutcome { results, steps, fed_texts, decisions, stats, hung }
+    RunOutcome { results, inner_results: inner_all, steps, fed_texts, decisions, stats, hung }
 }
 
 /// the same scenario with the schedule replaced by the explicit decisions of a previous run
